@@ -4,7 +4,10 @@ package main
 import (
 	"verifharness/rt"
 
+	_ "verifharness/mon/c04"
+	_ "verifharness/mon/c06"
 	_ "verifharness/mon/c09"
+	_ "verifharness/mon/c11"
 	_ "verifharness/mon/c12"
 )
 
